@@ -800,3 +800,122 @@ Proof.
   intros H Hc. cbn [fifo_step]. destruct (zlen c =? 0) eqn:Ec; [lia|].
   destruct (capacity <=? zlen q) eqn:E; [lia|reflexivity].
 Qed.
+
+(* ------------------------------------------------------------------------------------------------ *)
+(* what each operation writes into the 16 mirrored slots (extension round) *)
+
+Definition cr_key : key := (keybuf_append_cr_char, keybuf_append_cr_scan).
+
+Lemma rr_buf_only s1 s2 i : buf s1 = buf s2 -> rr s1 i = rr s2 i.
+Proof. intros E. unfold rr, buflen, keybuf_ring_index. rewrite E. reflexivity. Qed.
+
+(* a limit-checked key press: the slot at tail receives the key, or the uncounted CR when 15 keys wait;
+   no other slot, no pointer changes *)
+Theorem press_ring_thm s c scan : ring_ok s -> zlen c <> 0 ->
+  let n := zlen (waiting s) in
+  let t := (start s + n) mod 16 in
+  exists s', append true c scan s = Ok s' /\ ring_ok s' /\ start s' = start s
+    /\ waiting s' = (if capacity <=? n then waiting s else waiting s ++ [(c, scan)])
+    /\ ring_read s' t = Ok (if capacity <=? n then cr_key else (c, scan))
+    /\ (forall i, 0 <= i < 16 -> i <> t -> ring_read s' i = ring_read s i).
+Proof.
+  intros [H Hb] Hc n t. pose proof (zlen_waiting s H) as Hw. fold n in Hw.
+  destruct (append_spec true c scan s H) as [s' [Ha [Hi [Hs Hwt]]]].
+  destruct (zlen c =? 0) eqn:Ec; [lia|]. cbn [andb] in Hwt. fold n in Hwt.
+  exists s'. split; [exact Ha|].
+  assert (Ht : 0 <= t < 16) by (unfold t; lia).
+  unfold append in Ha. rewrite Ec in Ha. cbn [negb] in Ha.
+  unfold keybuf_append_full, keybuf_append_cr_index in Ha. rewrite ring_length_16 in Ha. cbn [andb] in Ha.
+  unfold inv in H. unfold capacity in *.
+  destruct (15 <=? n) eqn:Ef.
+  - (* full: CR into the free slot *)
+    destruct (buflen s - start s >=? 16 - 1) eqn:Eg; [|lia].
+    rewrite py_set_in in Ha by (unfold buflen in *; lia). cbn [bind] in Ha. injection Ha as Hs'.
+    assert (Hl : buflen s' = buflen s).
+    { rewrite <- Hs'. unfold buflen, zlen. cbn [buf]. rewrite set_nth_length. reflexivity. }
+    assert (Hidx : keybuf_ring_index (buflen s) (start s) t = start s - 1).
+    { replace t with ((start s - 1) mod 16) by (unfold t; lia). apply ring_index_unique; lia. }
+    split; [split; [exact Hi | lia]|]. split; [exact Hs|]. split; [exact Hwt|].
+    split.
+    + rewrite ring_read_ok by assumption. f_equal. unfold rr. rewrite Hl, Hs, Hidx. rewrite <- Hs'. cbn [buf].
+      apply nth_set_nth_same. unfold buflen, zlen in *. lia.
+    + intros i Hi0 Hne. rewrite !ring_read_ok by (try assumption; unfold inv; lia). f_equal.
+      unfold rr. rewrite Hl, Hs. rewrite <- Hs'. cbn [buf]. apply nth_set_nth_other.
+      pose proof (ring_index_range (buflen s) (start s) i ltac:(lia) Hi0) as [Hr Hm].
+      intros Heq. apply Hne. rewrite <- Hm. replace (keybuf_ring_index (buflen s) (start s) i) with (start s - 1) by lia.
+      unfold t. lia.
+  - (* room: the key goes into the slot at tail *)
+    destruct (buflen s - start s >=? 16 - 1) eqn:Eg; [lia|].
+    injection Ha as Hs'.
+    assert (Hl : buflen s' = buflen s + 1).
+    { rewrite <- Hs'. unfold buflen. cbn [buf]. rewrite zlen_app. reflexivity. }
+    split.
+    { split; [exact Hi|]. rewrite Hl, Hs. lia. }
+    split; [exact Hs|]. split; [exact Hwt|].
+    assert (Htl : t = buflen s mod 16) by (unfold t; f_equal; lia).
+    split.
+    + rewrite ring_read_ok by assumption. f_equal. unfold rr. rewrite Hl, Hs.
+      replace t with (buflen s mod 16) by exact (eq_sym Htl).
+      rewrite ring_index_unique by lia. rewrite <- Hs'. cbn [buf].
+      rewrite app_nth2 by (unfold buflen, zlen; lia).
+      replace (Z.to_nat (buflen s) - length (buf s))%nat with 0%nat by (unfold buflen, zlen; lia). reflexivity.
+    + intros i Hi0 Hne. rewrite !ring_read_ok by (try assumption; unfold inv; lia). f_equal.
+      unfold rr. rewrite Hl, Hs.
+      pose proof (ring_index_range (buflen s + 1) (start s) i ltac:(lia) Hi0) as [Hr Hm].
+      remember (keybuf_ring_index (buflen s + 1) (start s) i) as p.
+      assert (Hp : p <> buflen s) by (intros E; apply Hne; rewrite Htl, <- Hm, E; reflexivity).
+      replace (keybuf_ring_index (buflen s) (start s) i) with p
+        by (rewrite <- Hm; symmetry; apply ring_index_unique; lia).
+      rewrite <- Hs'. cbn [buf]. apply app_nth1. unfold buflen, zlen in *. lia.
+Qed.
+
+(* a read changes no slot *)
+Theorem read_ring_thm s : inv s -> forall i, ring_read (snd (getc s)) i = ring_read s i.
+Proof.
+  intros H i. pose proof (getc_spec s H) as Hg. destruct (waiting s) as [|k r].
+  - rewrite Hg. reflexivity.
+  - destruct Hg as [s' [Hg [_ [_ [Hb _]]]]]. rewrite Hg. cbn [snd].
+    unfold ring_read, buflen, keybuf_ring_index. rewrite Hb. reflexivity.
+Qed.
+
+(* the mirror covers exactly the 16 slots 1054..1085: every slot (slot 15 at 1084/1085 included) reads as
+   char byte / scancode, a poke into a slot byte changes that byte of that slot only and no pointer, and a
+   poke outside 1050, 1052, 1054..1085 does not touch the buffer *)
+Theorem mirror_read_thm s i : inv s -> 0 <= i < 16 ->
+  exists k, ring_read s i = Ok k
+    /\ peek_mem s (1054 + 2 * i) = Ok (hd 0 (fst k)) /\ peek_mem s (1055 + 2 * i) = Ok (snd k).
+Proof.
+  intros H Hi. exists (rr s i). split; [apply ring_read_ok; assumption|].
+  split; [apply peek_slot_char | apply peek_slot_scan]; assumption.
+Qed.
+
+Theorem mirror_poke_thm s i odd v : inv s -> 0 <= i < 16 -> 0 <= odd <= 1 ->
+  exists s' k, ring_read s i = Ok k /\ poke_mem (1054 + 2 * i + odd) v s = Ok s' /\ inv s'
+    /\ start s' = start s /\ buflen s' = buflen s
+    /\ ring_read s' i = Ok (if odd =? 1 then (fst k, v)
+                            else if keybuf_poke_slot_blank v then ([], snd k) else ([v], snd k))
+    /\ (forall j, 0 <= j < 16 -> j <> i -> ring_read s' j = ring_read s j).
+Proof.
+  intros H Hi Ho. unfold poke_mem.
+  destruct (1054 + 2 * i + odd =? 1050) eqn:E0; [lia|]. destruct (1054 + 2 * i + odd =? 1052) eqn:E2; [lia|].
+  unfold keybuf_poke_slot_lo, keybuf_poke_slot_hi, keybuf_poke_slot_index, keybuf_poke_slot_odd, keybuf_offset.
+  destruct ((1024 + 30 <=? 1054 + 2 * i + odd) && (1054 + 2 * i + odd <? 1024 + 30 + 32)) eqn:E4; [|lia].
+  replace ((1054 + 2 * i + odd - 1024 - 30) / 2) with i by lia.
+  replace ((1054 + 2 * i + odd - 1024 - 30) mod 2) with odd by lia.
+  rewrite ring_read_ok by assumption. cbn [bind].
+  match goal with |- context [ring_write i ?k s] =>
+    destruct (ring_write_spec s i k H Hi) as [s' [Hw [Hi' [Hs [Hl [Hk Ho']]]]]] end.
+  exists s', (rr s i). split; [reflexivity|]. split; [exact Hw|]. split; [exact Hi'|].
+  split; [exact Hs|]. split; [exact Hl|]. split.
+  - rewrite ring_read_ok by assumption. f_equal. rewrite Hk.
+    assert (odd = 0 \/ odd = 1) as [-> | ->] by lia; reflexivity.
+  - intros j Hj Hne. rewrite !ring_read_ok by assumption. f_equal. apply Ho'; assumption.
+Qed.
+
+Theorem mirror_extent_thm s a v : a <> 1050 -> a <> 1052 -> (a < 1054 \/ 1086 <= a) -> poke_mem a v s = Ok s.
+Proof.
+  intros H0 H2 Hr. unfold poke_mem.
+  destruct (a =? 1050) eqn:E0; [lia|]. destruct (a =? 1052) eqn:E2; [lia|].
+  unfold keybuf_poke_slot_lo, keybuf_poke_slot_hi, keybuf_offset.
+  destruct ((1024 + 30 <=? a) && (a <? 1024 + 30 + 32)) eqn:E4; [lia|]. reflexivity.
+Qed.
